@@ -137,3 +137,48 @@ def _exp_lemmas(ctx, term):
             walk(c)
     if isinstance(term, Sym):
         walk(term.t)
+
+
+@harness('C04', 'subrange_sequence',
+         quick=[dict(nt=2, npr=2, mode='linear', _shards=4), dict(nt=2, npr=2, mode='exp', _shards=4)],
+         thorough=[dict(nt=3, npr=2, mode='linear', _shards=16), dict(nt=2, npr=3, mode='exp', _shards=16), dict(nt=2, npr=2, mode='linear', ktable=2, _shards=4)],
+         covers=['same_cell', 'different_cell'], functions=FUNCS, shard_depth=4, max_paths=60000,
+         stubs=['pickle.load/open -> the symbolic table', 'log10/exp/ln UF'],
+         outside=['sequences longer than two calls', 'requested grids that are not runs of native points (see C13)'])
+def subrange_sequence(ctx, nt, npr, mode, ktable=0):
+    """Two successive real .opacity(T,P,wngrid) calls on ONE object with different wavenumber sub-ranges (symbolic
+    T1,P1,T2,P2 in any region/cell): the second answer equals what a freshly loaded object returns for the same
+    request, and equals the full-grid answer restricted to the sub-range (no state carried between calls)."""
+    nw = 3
+    tg = ctx.increasing('t', nt, gt=0)
+    pg = ctx.increasing('p', npr, gt=0)
+    shape = (npr, nt, nw) + ((ktable,) if ktable else ())
+    X = ctx.array('x', shape, gt=0)
+    T1, P1 = ctx.real('T1', gt=0), ctx.real('P1', gt=0)
+    T2, P2 = ctx.real('T2', gt=0), ctx.real('P2', gt=0)
+    wn = np.array([100.0, 200.0, 300.0])
+
+    def load():
+        if ktable:
+            return make_pickle_ktable(dict(bin_centers=wn, ngauss=ktable, t=tg, p=pg, kcoeff=X, weights=np.ones(ktable) / ktable, name='H2O'), mode)
+        return make_pickle_opacity(dict(wno=wn, t=tg, p=pg, xsecarr=X, name='H2O'), mode)
+    op = load()
+    sub1, sub2 = wn[0:2].copy(), wn[1:3].copy()
+    r1 = np.asarray(op.opacity(T1, P1, sub1))
+    r2 = np.asarray(op.opacity(T2, P2, sub2))
+    fresh = np.asarray(load().opacity(T2, P2, sub2))
+    full = np.asarray(load().opacity(T2, P2))
+    lP1, lP2 = ctx.log10(P1), ctx.log10(P2)
+    same_cell = ctx.and_([ctx.eq(ctx.lt(T1, tg[i]), ctx.lt(T2, tg[i])) if False else
+                          ctx.or_(ctx.and_(ctx.lt(T1, tg[i]), ctx.lt(T2, tg[i])), ctx.and_(ctx.le(tg[i], T1), ctx.le(tg[i], T2))) for i in range(nt)])
+    ctx.cover_if('same_cell', same_cell)
+    ctx.cover_if('different_cell', ctx.not_(same_cell))
+    eshape = (2, ktable) if ktable else (2,)
+    ctx.goal('shapes', r1.shape == eshape and r2.shape == eshape and fresh.shape == eshape)
+    if not (r1.shape == eshape and r2.shape == eshape and fresh.shape == eshape):
+        return
+    for idx in np.ndindex(eshape):
+        tag = ','.join(map(str, idx))
+        ctx.goal('second_call_like_fresh[%s]' % tag, ctx.eq(r2[idx], fresh[idx]))
+        fidx = (idx[0] + 1,) + idx[1:]
+        ctx.goal('subrange_is_restriction[%s]' % tag, ctx.eq(r2[idx], full[fidx]))
